@@ -19,7 +19,7 @@ ASSUMPTIONS = ["values contain no NUL", "non-interactive shell (no history expan
 
 # quoting-relevant alphabet
 ALPHA = ["'", '"', "\\", "$", "`", "!", " ", "\t", "\n", "\r", "\x01", "\x7f", "é", "~", "#", "=", ":", "-", "a", "7",
-         "*", "{", ";", "]"]
+         "*", "{", ";", "]", "\x85", "\x9b"]     # incl. DEL followed by an octal digit, C1 controls U+0085 / U+009B
 MODES = ["fs", "fd", "fb", "ns", "nd", "nb"]
 FORMS = ["q", "qu", "Q", "A", "declp", "set", "declare", "exportp", "arr", "arrA", "assoc", "alias", "aliasall", "trap", "xarg", "xasg"]
 # how the text of each form is read back: (reader, expected-shape)
@@ -49,24 +49,47 @@ def octal_reread_class(s):
 IF_NEEDED_FORMS = {"q", "set", "declare", "xarg", "xasg", "assoc"}
 
 
-def classify(form_or_mode, s, reader):
-    """-> known-finding id or None, for a failing round trip of value s through the form (or API mode)"""
+def applicable(form_or_mode, s, reader):
+    """every finding class the failing round trip of value s through the form (or API mode) lies in"""
     f = form_or_mode
+    out = []
     if f == "qu":
         if (any(ord(c) > 127 for c in s) and "'" in s) or ":~" in s or "=~" in s:
-            return "KF-C13-uucore-q"
-        return None
+            out.append("KF-C13-uucore-q")
+        return out
     if f == "assoc" and reader == "brush" and "]" in s:
-        return "KF-C13-assoc-key-bracket"
+        out.append("KF-C13-assoc-key-bracket")
     if f in ("alias", "aliasall", "trap") and "'" in s:
-        return "KF-C13-alias-trap-raw"
+        out.append("KF-C13-alias-trap-raw")
     if f == "exportp" and any(c in s for c in '"$`\\'):
-        return "KF-C13-export-p-raw"
+        out.append("KF-C13-export-p-raw")
     if reader == "brush" and octal_reread_class(s) and f not in ("alias", "aliasall", "trap", "exportp"):
-        return "KF-C13-ansi-c-octal-reread"
+        out.append("KF-C13-ansi-c-octal-reread")
     if (f in IF_NEEDED_FORMS or f in ("ns", "nd", "nb", "fb")) and known_pos(s) and not has_ctrl(s):
-        return "KF-C13-tilde-hash"
+        out.append("KF-C13-tilde-hash")
+    return out
+
+
+_OPEN = None
+
+
+def open_ids():
+    global _OPEN
+    if _OPEN is None:
+        _OPEN = {f["id"] for f in core.load_known(PID) if f.get("status") == "open"}
+    return _OPEN
+
+
+def pick(classes):
+    """an OPEN class whenever one applies; a case lying only in fixed classes is a genuine violation (None)"""
+    for k in classes:
+        if k in open_ids():
+            return k
     return None
+
+
+def classify(form_or_mode, s, reader):
+    return pick(applicable(form_or_mode, s, reader))
 
 
 # ---- generators
@@ -103,18 +126,40 @@ BASH_SCRIPTS = {
 }
 
 
+def run_group(cmd, env, cwd, timeout):
+    """run a child in its own process group; the whole group is killed on timeout and after completion"""
+    import signal
+    p = subprocess.Popen(cmd, env=env, cwd=cwd, stdout=subprocess.PIPE, stderr=subprocess.PIPE, stdin=subprocess.DEVNULL,
+                         start_new_session=True)
+    try:
+        out, err = p.communicate(timeout=timeout)
+        rc = p.returncode
+    except subprocess.TimeoutExpired:
+        out, err, rc = b"", b"", None
+    finally:
+        try:
+            os.killpg(p.pid, signal.SIGKILL)
+        except (ProcessLookupError, PermissionError):
+            pass
+        if rc is None:
+            try:
+                p.communicate(timeout=5)
+            except Exception:
+                pass
+    return rc, out, err
+
+
 def bash_consume(reader, text, cwd):
     kind, _, name = reader.partition(":")
     script = BASH_SCRIPTS[kind].replace("@N@", name)
     env = {"PATH": "/usr/bin:/bin", "T": text, "LC_ALL": "C.UTF-8"}
     try:
-        p = subprocess.run(["/usr/bin/bash", "--norc", "--noprofile", "-c", script], env=env, cwd=cwd,
-                           stdout=subprocess.PIPE, stderr=subprocess.PIPE, timeout=10, stdin=subprocess.DEVNULL)
-    except subprocess.TimeoutExpired:
-        return None
+        rc, out, _ = run_group(["/usr/bin/bash", "--norc", "--noprofile", "-c", script], env, cwd, 10)
     except ValueError:   # NUL in text
         return None
-    parts = p.stdout.decode("utf-8", "replace").split("\0")
+    if rc is None:
+        return None
+    parts = out.decode("utf-8", "replace").split("\0")
     if parts and parts[-1] == "":
         parts = parts[:-1]
     return parts
@@ -303,7 +348,7 @@ def run(ctx, extended=False):
         else:
             vv = {"input": {"text": t, "position": "argument" if p == "a" else "assignment", "reader": "brush"},
                   "why": "brush reads the word %r as %r (status %s); the quoting rules give %r" % (t, f, st, v)}
-            kf = "KF-C13-ansi-c-octal-reread" if octal_text_class(t) else None
+            kf = pick(["KF-C13-ansi-c-octal-reread"]) if octal_text_class(t) else None
             if kf:
                 vv["known"] = kf
             specv.append(vv)
@@ -368,7 +413,7 @@ def run(ctx, extended=False):
             rcons.append((c, t))
         else:
             keys = c[1::2]
-            kf = "KF-C13-tilde-hash" if (c[0] == "h" and any(known_pos(k) and not has_ctrl(k) for k in keys)) else None
+            kf = pick(["KF-C13-tilde-hash"]) if (c[0] == "h" and any(known_pos(k) and not has_ctrl(k) for k in keys)) else None
             if kf and sum(1 for v in specv if v.get("known") == kf) > 60:
                 continue
             specv.append({"input": {"array": c}, "why": "declare -p value %r does not read back as the array (reader spec: %r)" % (t, r[:9]),
